@@ -87,6 +87,21 @@ def build(rng, tier):
             ops.append(f"eng push {inst} r0" + "".join(" " + eng.sx_tuple(t) for t in extra)); union[0] = union[0] + extra
         ops += [f"eng run {inst}", f"eng dump {inst}"]; marks.append(union)
         cases.append(engcheck.Case("hsp", inst, ops, {"inp": inp, "marks": marks, "kind": "shortest-paths-history"}))
+    # a lattice read through an index that CONTAINS the lattice column (`hit(k, v) <-- want(v), best(k, v)`; not a monotone use, so only the
+    # first half of the statement is claimed: a second run() must change nothing).  A key derived several times within one iteration, the later
+    # derivation improving the earlier one, must end up filed under its final value (seeded change C13_r4_serial_lattice_requeue_skipped_when_in_new)
+    lv = {"rels": [{"arity": 2}, {"arity": 1}, {"arity": 2, "lat": "max"}, {"arity": 2}, {"arity": 2}],
+          "rules": [{"heads": [(2, [("var", 0), ("var", 1)])], "body": [("cl", 0, [("v", 0), ("v", 1)], [])]},
+                    {"heads": [(3, [("var", 0), ("var", 1)])], "body": [("cl", 1, [("v", 1)], []), ("cl", 2, [("v", 0), ("v", 1)], [])]},
+                    {"heads": [(4, [("var", 0), ("var", 1)])], "body": [("cl", 2, [("v", 0), ("v", 1)], []), ("if", ("le", ("var", 1), 4))]}]}
+    progs["hlv"] = lv; mods.append(("hlv", eng.rs_module("hlv", lv)))
+    for j in range(8 if tier == "quick" else 40):
+        r2 = rng.fork(f"hlv{j}")
+        src = [(r2.range(0, 3), r2.range(0, 9)) for _ in range(r2.range(2, 8))]
+        inp = {0: list(dict.fromkeys(src)), 1: [(v,) for v in sorted({r2.range(0, 9) for _ in range(4)} | {max(v for _, v in src)})], 2: [], 3: [], 4: []}
+        inst = f"hlv_{j}"
+        ops = [f"eng new {inst} hlv"] + engcheck.load_ops(inst, inp) + [f"eng run {inst}", f"eng dump {inst}", f"eng run {inst}", f"eng dump {inst}"]
+        cases.append(engcheck.Case("hlv", inst, ops, {"inp": inp, "marks": ["same"], "kind": "lattice-value-index-rerun", "idem_only": True}))
     # programs WITH aggregation: the statement's first half (idempotence) is claimed for them too (failed before fix 8b2e261: finding F2)
     for i, p in enumerate(engcheck.make_programs(rng.fork("c13agg"), 8 if tier == "quick" else 30, genf=gen.gen_agg_program, filt=eng.stratifiable)):
         pid = f"ha{i}"
@@ -114,7 +129,7 @@ def known(c, p, impl, model):
 def oracle(c, p, out):
     dumps = [l for l, o in zip(out, c.ops) if o.startswith("eng dump")]
     if any(not d.startswith("r0:") for d in dumps): return "run/dump failed: " + next(d for d in dumps if not d.startswith("r0:"))
-    first = engcheck.check_sets(p, dumps[0], engcheck.spec_sets(p, c.meta["inp"]))
+    first = None if c.meta.get("idem_only") else engcheck.check_sets(p, dumps[0], engcheck.spec_sets(p, c.meta["inp"]))
     if first: return "first run: " + first
     prev = dumps[0]
     for k, (m, d) in enumerate(zip(c.meta["marks"], dumps[1:])):
@@ -128,9 +143,15 @@ def oracle(c, p, out):
     return None
 
 
+def canon(c, out):
+    # reads of a lattice through its value column are outside the model's (monotone, snapshot) semantics: judged by the idempotence oracle only
+    if c.meta.get("idem_only"): return ["<non-monotone lattice read: judged by the idempotence oracle>" for _ in out]
+    return out
+
+
 def check(tier, replay=None):
     return engcheck.run_property("C13", tier, modules=["AscentVerif.Props.C13", "AscentVerif.Props.C13L", "AscentVerif.Props.C13Agg"], theorems=THEOREMS, trusted=TRUSTED, group="c13",
-                                 build=build, oracle=oracle, known=known, what="histories of run / push on compiled programs",
+                                 build=build, oracle=oracle, known=known, canon=canon, what="histories of run / push on compiled programs",
                                  rule="generated aggregation-free programs x histories run; (run | push facts into any relations incl. derived ones; run){1..3}; "
                                       "after an unmodified re-run every relation must be unchanged as a set, after pushes it must equal the naive least model "
                                       "of the union of everything loaded and pushed; impl vs model compared with multiplicities")
